@@ -28,6 +28,8 @@ def run(tier, seed):
         pos = common.spec_to_code(chk, cfgs, make_real, relax=RELAX, neg_cfgs=neg, tag=tag)
         common.code_to_spec(chk, cfgs, make_real, tag=tag,
                             expect_feasible=(lambda c, pos=pos: bool(pos and pos['behs'].get(c['id']))))
+    # larger seeded portfolios (T = 12 / 24, up to 10 assets): TLC validates the optimiser's output, it does not enumerate
+    common.code_to_spec(chk, fam.fam_random(seed + 200, n=16 if tier == 'quick' else 80, T=12 if tier == 'quick' else 24, storages=(2, 4)), lambda c: R.Real(c), tag='random', solvers=('SCIPY', None))
     chk.assumptions += ['storage parameters in the documented domain: 0 <= start_level <= size, rates >= 0, efficiency > 0',
                         'maximum holding duration is exercised with start_level = 0 in the quick tier',
                         'time blocks: holding cost 0 (the documented block semantics says nothing about cost across blocks)']
